@@ -7,6 +7,12 @@ import GIV.Model.Build
 namespace GIV.Build
 open GIV GIV.Gen.Imports
 
+@[simp] theorem hasPrefix_nil (b : Bytes) : hasPrefix [] b = true := by simp [hasPrefix, List.isPrefixOf]
+@[simp] theorem hasPrefix_cons_nil (a : UInt8) (as : Bytes) : hasPrefix (a :: as) [] = false := by
+  simp [hasPrefix, List.isPrefixOf]
+@[simp] theorem hasPrefix_cons (a b : UInt8) (as bs : Bytes) :
+    hasPrefix (a :: as) (b :: bs) = (a == b && hasPrefix as bs) := by simp [hasPrefix, List.isPrefixOf]
+
 /-! ### cutAt / splitOn -/
 
 theorem splitOn_ne_nil (c : UInt8) (b : Bytes) : splitOn c b ≠ [] := by
@@ -53,6 +59,32 @@ theorem cutAt_none {c : UInt8} {b l : Bytes} (h : cutAt c b = (l, none)) :
       subst hl
       refine ⟨by simp [this.1], ?_⟩
       rw [splitOn, if_neg hx, this.2]
+
+/-- the piece before the cut holds no separator. -/
+theorem splitOn_cutAt_fst (c : UInt8) (b : Bytes) : splitOn c (cutAt c b).1 = [(cutAt c b).1] := by
+  induction b with
+  | nil => simp [cutAt, splitOn]
+  | cons x xs ih =>
+    unfold cutAt
+    split
+    · simp [splitOn]
+    · next hx => simp only; rw [splitOn, if_neg hx, ih]
+
+theorem cutAt_append {c : UInt8} {b l r : Bytes} (h : cutAt c b = (l, some r)) (X : Bytes) :
+    cutAt c (l ++ c :: X) = (l, some X) := by
+  induction b generalizing l with
+  | nil => simp [cutAt] at h
+  | cons x xs ih =>
+    unfold cutAt at h
+    split at h
+    · simp at h; obtain ⟨rfl, _⟩ := h; simp [cutAt]
+    · next hx =>
+      simp at h
+      obtain ⟨hl, hr⟩ := h
+      have := ih (l := (cutAt c xs).1) (by rw [← hr])
+      subst hl
+      simp only [List.cons_append]
+      rw [cutAt, if_neg hx, this]
 
 theorem cutAt_cases (c : UInt8) (b : Bytes) :
     (∃ l r, cutAt c b = (l, some r)) ∨ (∃ l, cutAt c b = (l, none)) := by
